@@ -597,7 +597,7 @@ static void op_bad(void) {
         case 0: BEGIN("reallocn", 0, 0) q = mi_reallocn(p, cnt, sz); break;
         case 1: BEGIN("recalloc", 0, 1) q = mi_recalloc(p, cnt, sz); break;
         case 2: BEGIN("reallocarray", 0, 0) q = mi_reallocarray(p, cnt, sz); break;
-        case 3: BEGIN("reallocarr", 0, 0) { void* pp = p; rc = mi_reallocarr(&pp, cnt, sz); q = (rc == 0 ? pp : NULL); } break;
+        case 3: BEGIN("reallocarr", 0, 0) { void* pp = p; rc = mi_reallocarr(&pp, cnt, sz); q = (rc == 0 ? pp : NULL); if (rc != 0) outkeep = (pp == p); } break;
         case 4: BEGIN("heap_reallocn", 1, 0) q = mi_heap_reallocn(hp, p, cnt, sz); break;
         case 5: BEGIN("heap_recalloc", 1, 1) q = mi_heap_recalloc(hp, p, cnt, sz); break;
         default: al = 16; BEGIN("recalloc_aligned", 0, 1) q = mi_recalloc_aligned(p, cnt, sz, al); break;
@@ -1128,8 +1128,23 @@ static int run_worker_ex(int count, size_t lo, size_t hi, int mode, int victim) 
   return w.heapid;
 }
 static void run_worker(int count, size_t lo, size_t hi) { run_worker_ex(count, lo, hi, 0, 0); }
-/* one allocate-everything phase of workload `wl` */
-static void workload_alloc(const char* wl) {
+/* re-allocate some of the live blocks of the main thread to a (much) larger size: needs fresh memory, so under a fault plan the call
+   may fail -- the original block must then still be there with its contents (C05 / C07) */
+static void grow_some(int count) {
+  static const int gops[] = { R_realloc, R_reallocn, R_rezalloc, R_recalloc, R_realloc_aligned, R_reallocf, R_heap_realloc };
+  for (int i = 0; i < count; i++) {
+    int s = pick_live(); if (s < 0 || slots[s].heap != hps[0].id || slots[s].al != 0) continue;
+    size_t o = slots[s].req;
+    size_t nn = (o < 100000 ? o * 3 + 70000 : o < ((size_t)4 << 20) ? o * 2 + ((size_t)1 << 20) : o + ((size_t)48 << 20));
+    int op = gops[vf_randn(7)];
+    if ((rops[op].fl & F_ZERO) && !slots[s].zl) op = R_realloc;
+    op_realloc_ex(op, s, nn, 0, 0);
+    maybe_clock();
+  }
+}
+static void workload_alloc_base(const char* wl);
+static void workload_alloc(const char* wl) { workload_alloc_base(wl); if (strcmp(wl, "giant") != 0 && strcmp(wl, "reuse") != 0) grow_some(wl_scale > 1 ? 3 : 8); }
+static void workload_alloc_base(const char* wl) {
   if (!strcmp(wl, "small")) { alloc_many(260, 1, 1024, 1); alloc_many(60, 1025, 8192, 1); }
   else if (!strcmp(wl, "large")) { alloc_many(30, 8193, 131072, 1); alloc_many(24, 131073, 4u << 20, 0); alloc_many(3, 5u << 20, 15u << 20, 0); }
   else if (!strcmp(wl, "huge")) { alloc_many(2, 17u << 20, 40u << 20, 0); alloc_many(1, 70u << 20, 100u << 20, 0);
